@@ -26,6 +26,9 @@ LEAVES = [
      [P("next_", "next_"), P("last", "last"), P("now", "now")], "num", {}),
     ("Lookup", "send_if", "_services/info.py", "ServiceInfo.async_request", ("if", "out.questions", 0),
      [P("out.questions", "n_questions")], "bool", {"nat": True}),
+    # ---- info.py: _load_from_cache (repaired, D14): newest SRV/TXT key object that passes this test
+    ("Lookup", "load_takes", "_services/info.py", "ServiceInfo._load_from_cache", ("if", "is_expired", 0),
+     [P("record.is_expired(now)", "expired", "bool")], "bool", {}),
     # ---- info.py: _add_question_with_known_answers
     ("Lookup", "skip_known", "_services/info.py", "ServiceInfo._add_question_with_known_answers", ("if", "skip_if_known_answers", 0),
      [P("skip_if_known_answers", "skip_if_known_answers", "bool"), P("known_answers", "n_known")], "bool", {"nat": True}),
